@@ -14,7 +14,8 @@ CLAIMED = {
  "C05": dict(
   text="Deductive proof of handleConnection over one symbolic byte stream (so truncated/padded/fragmented/abandoned streams are all covered): "
        "callback at most once and only with the four decoded fields, positive reply only if decode ok and callback approved without error, "
-       "exactly one reply written and the connection closed; reply fits the client's 256-byte part limit and decodes to the callback's verdict (lemma resp-roundtrip).",
+       "exactly one reply written and the connection closed; reply fits the client's 256-byte part limit and decodes to the callback's verdict (lemma resp-roundtrip); "
+       "the bundled Go client (Client.Auth) sends exactly its four arguments, reports success only for a completely decoded reply starting with OK, and treats every failure as a denial.",
   note="Assumed: bufio.Scanner / net.Conn contracts; the callback is an arbitrary function observed through ghost state. "
        "Concurrency clause (independent connections) rests on handleConnection's frame (no Server field written), not on a schedule exploration. PAM-module decodability is not decided (C code).",
   design="3 C05"),
@@ -30,7 +31,10 @@ CLAIMED = {
   text="Deductive proof of the wiring of all five frontends and of the request funnel: each frontend passes exactly the decoded credentials to Store.Authenticate "
        "(LDAP: the bind name cut at the first '@'), accepts iff the store accepted without error (HTTP 200 / LDAP success / SASL ok / exit 0,1,3), the wrapper sends them unchanged "
        "and returns the received results in order, the dispatcher calls authenticate with the request's fields and answers on the request's channel with that call's result, "
-       "and authenticate returns Dir.Authenticate's five results unchanged; Dir.Authenticate's 'error implies denial' is proved over the store code.",
+       "and authenticate returns Dir.Authenticate's five results unchanged; Dir.Authenticate's 'error implies denial' is proved over the store code. "
+       "Wiring: the saslauthd server installs exactly the given callback and hands every accepted connection to handleConnection of that server, both saslauthd listeners pass the "
+       "store-asking closure, every /basic-auth and /api/ path is registered with the handler proved for it over the listener's store and one session factory, and the LDAP listeners "
+       "register a bind handler over the listener's store on the server they serve.",
   note="Assumed: what r.BasicAuth(), json.Decoder, the LDAP library and urfave/cli hand over are the submitted credentials (symbolic inputs); a value received from a reply channel "
        "is the value the dispatcher's checked send produced (channel hand-off). SASL field limits are C13/C05.",
   design="3 C04"),
@@ -39,7 +43,7 @@ CLAIMED = {
        "with the admin flag (update: admin, or token user = target, or a successful Authenticate of target with the old password, and exactly one credential kind), with the request's "
        "own arguments; a token is generated only after a successful Authenticate and names that user and the store-reported admin flag; status 200 only if the store call happened and "
        "returned nil; a list is put into a response only from the store's result under a valid admin session; exactly one response per request. Check's own meaning is C07's proof.",
-  note="Assumed: JSON decoding fills the request struct with arbitrary values (that is the symbolic input); mux routing; channel hand-off to the dispatcher. 'Store byte-for-byte "
+  note="Assumed: JSON decoding fills the request struct with arbitrary values (that is the symbolic input); that ServeMux dispatches a path to the handler registered for it (the registrations are proved); channel hand-off to the dispatcher. 'Store byte-for-byte "
        "unchanged on refusal' rests on: no mutating call was made on those paths (proved) and C15 for failed store calls.",
   design="3 C06"),
  "C12": dict(
